@@ -363,7 +363,7 @@ def run_check(engine, tier):
             exit_code = 1
             continue
         i, seed, _, _, choices, detail = vs[0]
-        budget = 1500 if tier == "quick" else 6000
+        budget = getattr(engine, "minimise_budget", {"quick": 1500, "thorough": 6000})[tier]
         small, spent = minimise(engine, choices, (clause, key), budget)
         ch, res = run_choices(engine, small)
         if not res.get("violation"):
@@ -415,8 +415,9 @@ def run_check(engine, tier):
         "wall_s": round(wall_s, 2),
         "violations": sum(r["count"] for r in reported),
     }
-    os.makedirs(os.path.join(VERIF_DIR, "evidence"), exist_ok=True)
-    with open(os.path.join(VERIF_DIR, "evidence", "%s.json" % prop), "w") as f:
+    evdir = os.environ.get("VERIF_EVIDENCE_DIR") or os.path.join(VERIF_DIR, "evidence")
+    os.makedirs(evdir, exist_ok=True)
+    with open(os.path.join(evdir, "%s.json" % prop), "w") as f:
         json.dump(ev, f, indent=1, default=repr)
     print("[%s] %d runs, %d non-trivial, %d distinct signatures, %.0f sim-seconds, faults fired=%d, violations=%d, known=%d, %.1fs"
           % (prop, agg["n"], agg["nontrivial"], len(agg["sigs"]), agg["sim_s"], sum(agg["faults"].values()),
